@@ -81,16 +81,25 @@ def match_brace(s, i):
 def find_fn(src, impl_re, fname):
     """source text of `fn fname ... { body }` inside the impl block matched by impl_re"""
     if impl_re:
-        m = re.search(impl_re, src)
-        if not m:
+        ms = list(re.finditer(impl_re, src))
+        if not ms:
             raise TranslateError('impl block not found: /%s/' % impl_re)
-        i = src.find('{', m.end())
-        if i < 0:
-            raise TranslateError('impl block without body: /%s/' % impl_re)
-        j = match_brace(src, i)
-        region, base = src[i + 1:j], i + 1
-    else:
-        region, base = src, 0
+        found = []
+        for m in ms:
+            i = src.find('{', m.end())
+            if i < 0:
+                continue
+            j = match_brace(src, i)
+            try:
+                found.append(find_fn(src[i + 1:j], '', fname))
+            except TranslateError:
+                pass
+        if not found:
+            raise TranslateError('fn %s not found in /%s/' % (fname, impl_re))
+        if len(found) > 1:
+            raise TranslateError('fn %s is ambiguous in /%s/' % (fname, impl_re))
+        return found[0]
+    region = src
     hits = []
     for m in re.finditer(r'\bfn\s+%s\b' % re.escape(fname), region):
         depth = region.count('{', 0, m.start()) - region.count('}', 0, m.start())
@@ -117,6 +126,7 @@ class Parser:
 
     def __init__(self, toks, what):
         self.t, self.i, self.what = toks, 0, what
+        self.nostruct = False
 
     def err(self, msg):
         ctx = ' '.join(x[1] for x in self.t[max(0, self.i - 6):self.i + 6])
@@ -281,13 +291,17 @@ class Parser:
             self.expect(')')
             self.expect(')')
             self.expect('=')
+            saved, self.nostruct = self.nostruct, True
             e = self.expr(0)
+            self.nostruct = saved
             th = self.block()
             el = None
             if self.accept('else'):
                 el = self.block()
             return ('iflet', (a, b), e, th, el)
+        saved, self.nostruct = self.nostruct, True
         c = self.expr(0)
+        self.nostruct = saved
         th = self.block()
         el = None
         if self.accept('else'):
@@ -326,12 +340,14 @@ class Parser:
 
     def args(self):
         self.expect('(')
+        saved, self.nostruct = self.nostruct, False
         a = []
         while not self.at(')'):
             a.append(self.expr(0))
             if not self.accept(','):
                 break
         self.expect(')')
+        self.nostruct = saved
         return a
 
     def postfix(self):
@@ -355,23 +371,48 @@ class Parser:
             else:
                 return e
 
+    def paren_rest(self):
+        e = self.expr(0)
+        if self.accept(','):
+            es = [e]
+            while not self.at(')'):
+                es.append(self.expr(0))
+                if not self.accept(','):
+                    break
+            self.expect(')')
+            return ('tuple', es)
+        self.expect(')')
+        return e
+
+    def struct_lit(self, segs):
+        self.expect('{')
+        saved, self.nostruct = self.nostruct, False
+        fs = []
+        while not self.at('}'):
+            if self.at('..'):
+                self.err('unsupported struct update syntax')
+            n = self.ident()
+            if self.accept(':'):
+                fs.append((n, self.expr(0)))
+            else:
+                fs.append((n, ('path', [n])))
+            if not self.accept(','):
+                break
+        self.expect('}')
+        self.nostruct = saved
+        return ('struct', segs, fs)
+
     def primary(self):
         x = self.peek()
         if x[0] == 'num':
             self.next()
             return ('num', int(re.match(r'\d[\d_]*?(?=[a-z]|$)', x[1].replace('_', '')).group(0)))
         if self.accept('('):
-            e = self.expr(0)
-            if self.accept(','):
-                es = [e]
-                while not self.at(')'):
-                    es.append(self.expr(0))
-                    if not self.accept(','):
-                        break
-                self.expect(')')
-                return ('tuple', es)
-            self.expect(')')
-            return e
+            saved, self.nostruct = self.nostruct, False
+            try:
+                return self.paren_rest()
+            finally:
+                self.nostruct = saved
         if self.accept('['):
             es = []
             while not self.at(']'):
@@ -383,7 +424,16 @@ class Parser:
         if self.accept('|'):
             ps = []
             while not self.at('|'):
-                ps.append(self.ident())
+                if self.accept('('):
+                    tp = []
+                    while not self.at(')'):
+                        tp.append(self.ident())
+                        if not self.accept(','):
+                            break
+                    self.expect(')')
+                    ps.append(tuple(tp))
+                else:
+                    ps.append(self.ident())
                 if not self.accept(','):
                     break
             self.expect('|')
@@ -409,6 +459,8 @@ class Parser:
                 if self.at('<'):
                     self.err('unsupported generic arguments in path')
                 segs.append(self.ident())
+            if self.at('{') and not self.nostruct and segs[-1][0].isupper() and len(segs) == 1:
+                return self.struct_lit(segs)
             return ('path', segs)
         self.err('unexpected token `%s`' % x[1])
 
@@ -450,6 +502,8 @@ TYPES = {
     'Quad': [('c0', 'K'), ('c1', 'K')],
     'Cubic': [('c0', 'K'), ('c1', 'K'), ('c2', 'K')],
     'QuadCubic': [('c0', 'Cubic'), ('c1', 'Cubic')],
+    # short Weierstrass Affine as the Rust struct (x, y, infinity)
+    'SWAffS': [('x', 'K'), ('y', 'K'), ('infinity', 'bool')],
 }
 # degree of the struct over its scalar type (for Self::extension_degree())
 DEGREE = {'Quad': 2, 'Cubic': 3}
@@ -582,6 +636,8 @@ class Exec:
         self.hooks = {h['rust']: h for h in tgt.get('hooks', [])}
         for h in tgt.get('hooks', []):
             self.used.add(h['param'])
+            if 'param2' in h:
+                self.used.add(h['param2'])
         for d in tgt.get('dicts', {}).values():
             self.used.add(d)
         self.cur = None
@@ -616,6 +672,8 @@ class Exec:
     # ---- struct helpers
     def whole(self, v):
         if v.fields is None:
+            if v.expr is None:
+                self.err('value of type %s cannot be used here' % v.ty)
             return v.expr
         return '(' + ', '.join(self.whole(v.fields[f]) for f, _ in TYPES[v.ty]) + ')'
 
@@ -749,6 +807,19 @@ class Exec:
             return self.eval_call(e[1][1], e[2], env)
         if k == 'mcall':
             return self.eval_mcall(e, env)
+        if k == 'struct':
+            ctors = dict({'Self': self.tgt['selfty']}, **self.tgt.get('ctors', {}))
+            if e[1][0] not in ctors or ctors[e[1][0]] not in TYPES:
+                self.err('unknown struct `%s`' % e[1][0])
+            ty = ctors[e[1][0]]
+            given = dict()
+            for n, x in e[2]:
+                if n in given:
+                    self.err('field %s given twice' % n)
+                given[n] = self.rv(self.eval(x, env))
+            if sorted(given) != sorted(f for f, _ in TYPES[ty]):
+                self.err('struct literal of %s with fields %s' % (ty, sorted(given)))
+            return self.construct(ty, [given[f] for f, _ in TYPES[ty]])
         if k == 'closure':
             self.err('closure outside `.map(..)`')
         self.err('unsupported expression %r' % (k,))
@@ -758,6 +829,8 @@ class Exec:
             n = segs[0]
             if n == 'None':
                 return Val('opt:?', expr='None')
+            if n in ('true', 'false') and env.lookup(n) is None:
+                return Val('bool', expr=n)
             sl = env.lookup(n)
             if sl is None:
                 self.err('unknown identifier `%s`' % n)
@@ -840,6 +913,9 @@ class Exec:
             a = self.rv(self.eval(args[0], env))
             b = self.rv(self.eval(args[1], env))
             return self.sum_of_products(a, b)
+        if len(segs) == 2 and segs[0] == 'Self' and (self.tgt['selfty'], last) in self.methods() \
+           and not self.methods()[(self.tgt['selfty'], last)].get('method', True):
+            return self.call_target(self.methods()[(self.tgt['selfty'], last)], None, args, env)
         if last in ('new', 'new_unchecked') and len(segs) == 2:
             ctors = dict({'Self': self.tgt['selfty']}, **self.tgt.get('ctors', {}))
             if segs[0] not in ctors:
@@ -869,6 +945,26 @@ class Exec:
             self.err('%s is a constant, not a function' % h['rust'])
         if len(args) != len(h['args']):
             self.err('%s: expected %d arguments' % (h['rust'], len(h['args'])))
+        if h['kind'] == 'inplace2':
+            # f(&mut p1, &mut p2, opaque..): p1 := param(p1), p2 := param2(p2)
+            places = []
+            for i, a in enumerate(args):
+                if i < 2:
+                    if not (a[0] == 'un' and a[1] == '&mut'):
+                        self.err('%s: argument %d must be `&mut place`' % (h['rust'], i + 1))
+                    places.append(self.place_of(a[2], env))
+                else:
+                    v = self.rv(self.eval(a, env))
+                    if v.ty != h['args'][i] or v.ty != 'usize':
+                        self.err('%s: unexpected argument %d' % (h['rust'], i + 1))
+            if places[0][0] is places[1][0] and places[0][1] == places[1][1]:
+                self.err('%s: both arguments are the same place' % h['rust'])
+            for pl, pn in zip(places, (h['param'], h['param2'])):
+                v = self.read(*pl)
+                if v.ty != 'K':
+                    self.err('%s: argument of type %s' % (h['rust'], v.ty))
+                self.write(pl[0], pl[1], Val('K', expr=app(pn, v.expr)))
+            return Val('unit', expr='tt')
         tgt_place = None
         vals = []
         for i, a in enumerate(args):
@@ -887,7 +983,7 @@ class Exec:
         for v, t in zip(vals, h['args']):
             if v.ty != t:
                 self.err('%s: argument of type %s, expected %s' % (h['rust'], v.ty, t))
-        res = Val(h['ret'], expr=app(h['param'], *[self.whole(v) for v in vals]))
+        res = Val(h['ret'], expr=app(h['param'], *[self.whole(v) for v in vals if v.ty != 'usize']))
         if tgt_place is not None:
             self.write(tgt_place[0], tgt_place[1], res)
             return Ref(tgt_place[0], tgt_place[1])
@@ -911,7 +1007,8 @@ class Exec:
         for v, (_, t, _) in zip(vals, d['args']):
             if v.ty != t:
                 self.err('%s: argument of type %s, expected %s' % (d['fn'], v.ty, t))
-        pre = [d['name'], 'F'] + list(d.get('dicts', {}).values()) + [h['param'] for h in uniq_hooks(d)]
+        pre = [d['name'], 'F'] + list(d.get('dicts', {}).values()) + \
+            [x for h in uniq_hooks(d) for x in ([h['param'], h['param2']] if h['kind'] == 'inplace2' else [h['param']])]
         a = []
         if recv_place is not None:
             a.append(self.whole(self.read(*recv_place)))
@@ -937,6 +1034,31 @@ class Exec:
             if a.ty != 'intarr' or x.ty != 'nat':
                 self.err('unsupported `contains`')
             return Val('bool', expr='(existsb (Nat.eqb %s) [%s]%%nat)' % (x.expr, '; '.join(str(i) for i in a.items)))
+        if name == 'map_or_else' and len(args) == 2:
+            o = self.rv(self.eval(recv, env))
+            if o.ty != 'optxy':
+                self.err('`.map_or_else` on something else than `.xy()`')
+            if args[0][0] != 'path' or args[1][0] != 'closure' or len(args[1][1]) != 1 \
+               or not isinstance(args[1][1][0], tuple) or len(args[1][1][0]) != 2:
+                self.err('unsupported `.map_or_else` arguments')
+            dflt = self.rv(self.eval_call(args[0][1], [], env))
+            saved, self.cur = self.cur, []
+            env.scopes.append({})
+            a, b = args[1][1][0]
+            na, nb = self.fresh(a), self.fresh(b)
+            env.declare(a, Slot(Val('K', expr=na), a))
+            env.declare(b, Slot(Val('K', expr=nb), b))
+            stmts, tail = args[1][2]
+            if stmts or tail is None:
+                self.err('unsupported closure body in `.map_or_else`')
+            v = self.rv(self.eval(tail, env))
+            env.scopes.pop()
+            lets, self.cur = self.cur, saved
+            if lets:
+                self.err('side effects inside a `.map_or_else` closure')
+            if v.ty != dflt.ty:
+                self.err('`.map_or_else` branches of types %s and %s' % (dflt.ty, v.ty))
+            return Val(v.ty, expr='(match %s with Some (%s, %s) => %s | None => %s end)' % (o.expr, na, nb, self.whole(v), self.whole(dflt)))
         if name in ('map', 'unwrap'):
             o = self.rv(self.eval(recv, env))
             if o.ty != 'optinv':
@@ -986,8 +1108,9 @@ class Exec:
                 return self.call_target(self.methods()[(rty, name)], p, args, env)
             if (rty, name) in self.method_hooks():
                 h = self.method_hooks()[(rty, name)]
-                if args:
-                    self.err('%s with arguments' % name)
+                av = [self.rv(self.eval(a, env)) for a in args]
+                if [v.ty for v in av] != h.get('args', []):
+                    self.err('%s: unexpected arguments' % name)
                 self.write(p[0], p[1], Val(rty, expr=app(h['param'], self.whole(self.read(*p)))))
                 return Ref(p[0], p[1])
             if args:
@@ -1006,7 +1129,7 @@ class Exec:
                 self.err('in-place method %s on a temporary' % name)
             tmp = Slot(v, 'tmp')
             return self.call_target(d, (tmp, []), args, env)
-        if name in ('square', 'double', 'neg', 'inverse', 'is_zero') and not args:
+        if name in ('square', 'double', 'neg', 'inverse', 'is_zero', 'is_one') and not args:
             D = self.dict_of(v.ty)
             w = self.whole(v)
             if name == 'inverse':
@@ -1015,6 +1138,8 @@ class Exec:
                 return Val('optinv', expr=w)
             if name == 'is_zero':
                 return Val('bool', expr=app('feqb ' + D, w, '(f0 %s)' % D))
+            if name == 'is_one':
+                return Val('bool', expr=app('feqb ' + D, w, '(f1 %s)' % D))
             f = {'square': 'fsqr', 'double': 'fdbl', 'neg': 'fneg'}[name]
             return Val(v.ty, expr=app('%s %s' % (f, D), w))
         self.err('unsupported method `.%s` on a value of type %s' % (name, v.ty))
@@ -1268,7 +1393,8 @@ class Exec:
             else:
                 v = Val(ty, expr=gn)
             env.declare(rn, Slot(v, rn))
-            binders.append('(%s : %s)' % (gn, gty(ty)))
+            if ty != 'usize':
+                binders.append('(%s : %s)' % (gn, gty(ty)))
         for h in t.get('hooks', []):
             if h['kind'] == 'boolconst':
                 h['args_ast'] = [Parser(tokenize(a), t['name']).expr(0) for a in h['args_src']]
@@ -1291,8 +1417,10 @@ class Exec:
                 hp.append('(%s : bool)' % h['param'])
             elif h['kind'] == 'method':
                 hp.append('(%s : %s -> %s)' % (h['param'], gty(h['recv']), gty(h['recv'])))
+            elif h['kind'] == 'inplace2':
+                hp.append('(%s : T -> T) (%s : T -> T)' % (h['param'], h['param2']))
             else:
-                hp.append('(%s : %s)' % (h['param'], ' -> '.join(gty(x) for x in h['args'] + [h['ret']])))
+                hp.append('(%s : %s)' % (h['param'], ' -> '.join(gty(x) for x in [a for a in h['args'] if a != 'usize'] + [h['ret']])))
         head = 'Definition %s {T : Type} (F : Fops T) %s : %s :=' % (t['name'], ' '.join(hp + binders), rty)
         head = re.sub(r'  +', ' ', head)
         cm = '(* %s :: %s%s *)' % (t['file'], (re.sub(r'\\b|\\', '', t['impl']) + ' :: ') if t.get('impl') else '', t['fn'])
@@ -1305,9 +1433,9 @@ class Exec:
         pats = []
         for i, (f, t) in enumerate(TYPES[ty]):
             sub = names[i] if names else None
-            if t == 'K':
+            if t in ('K', 'bool'):
                 n = self.fresh(sub if isinstance(sub, str) else f)
-                fs[f] = Val('K', expr=n)
+                fs[f] = Val(t, expr=n)
                 pats.append(n)
             else:
                 v, p = self.param_struct(t, sub)
@@ -1363,6 +1491,10 @@ F6A_MUL = [H('mul_fp2_by_nonresidue', 'fn', 'mul_nr', ['K']),
            H('mul_fp2_by_nonresidue_in_place', 'inplace', 'mul_nr', ['K'])]
 F12_MUL6 = H('mul_fp6_by_nonresidue_in_place', 'inplace', 'mul_nr6', ['Cubic'], 'Cubic')
 
+SWA = 'ec/src/models/short_weierstrass/affine.rs'
+TEA = 'ec/src/models/twisted_edwards/affine.rs'
+QN = dict(selfty='Quad', selfparam='a', selfnames=['a0', 'a1'])
+CN = dict(selfty='Cubic', selfparam='s', selfnames=['s0', 's1', 's2'])
 SWN = dict(selfty='SWProj', selfparam='P', selfnames=['x1', 'y1', 'z1'])
 TEN = dict(selfty='TEProj', selfparam='P', selfnames=['x1', 'y1', 't1', 'z1'])
 
@@ -1476,10 +1608,87 @@ TARGETS = [
          fn='mul_fp6_by_nonresidue_in_place', method=False, selfty=None, mutrefs=['fe'], out='fe',
          args=[('fe', 'Cubic', 'fe')], argnames={'fe': ['fe0', 'fe1', 'fe2']}, ret='self',
          hooks=[H('mul_fp2_by_nonresidue_in_place', 'inplace', 'mul_nr_below', ['K'])]),
+    # ---- E: more of the curve code (equality, negation, conversions, curve equation)
+    dict(name='gen_sw_eq', file=SWG, impl=r'impl<P: SWCurveConfig> PartialEq for Projective<P>', fn='eq',
+         args=[('other', 'SWProj', 'Q')], argnames={'other': ['x2', 'y2', 'z2']}, ret='bool', hooks=[], **SWN),
+    dict(name='gen_sw_neg', file=SWG, impl=r'impl<P: SWCurveConfig> Neg for Projective<P>', fn='neg',
+         args=[], ret='self', hooks=[], **SWN),
+    dict(name='gen_sw_from_affine', file=SWG, impl=r'impl<P: SWCurveConfig> From<Affine<P>> for Projective<P>', fn='from',
+         method=False, selfty='SWProj', args=[('p', 'SWAff', 'A')], ret='SWProj', hooks=[]),
+    dict(name='gen_sw_aff_new_unchecked', file=SWA, impl=r'impl<P: SWCurveConfig> Affine<P>', fn='new_unchecked',
+         method=False, selfty='SWAffS', args=[('x', 'K', 'x'), ('y', 'K', 'y')], ret='SWAffS', hooks=[]),
+    dict(name='gen_sw_aff_identity', file=SWA, impl=r'impl<P: SWCurveConfig> Affine<P>', fn='identity',
+         method=False, selfty='SWAffS', args=[], ret='SWAffS', hooks=[]),
+    dict(name='gen_sw_into_affine', file=SWA, impl=r'impl<P: SWCurveConfig> From<Projective<P>> for Affine<P>', fn='from',
+         method=False, selfty='SWAffS', args=[('p', 'SWProj', 'P')], argnames={'p': ['x1', 'y1', 'z1']},
+         ret='SWAffS', hooks=[], may_panic=True),
+    dict(name='gen_sw_aff_is_on_curve', file=SWA, impl=r'impl<P: SWCurveConfig> Affine<P>', fn='is_on_curve',
+         selfty='SWAffS', selfparam='A', selfnames=['x', 'y', 'inf'], args=[], ret='bool',
+         hooks=[H('COEFF_A', 'const', 'coeff_a'), H('mul_by_a', 'fn', 'mul_by_a', ['K']), H('add_b', 'fn', 'add_b', ['K'])]),
+    dict(name='gen_sw_aff_neg', file=SWA, impl=r'impl<P: SWCurveConfig> Neg for Affine<P>', fn='neg',
+         selfty='SWAffS', selfparam='A', selfnames=['x', 'y', 'inf'], args=[], ret='self', hooks=[]),
+    dict(name='gen_te_zero', file=TEG, impl=r'impl<P: TECurveConfig> Zero for Projective<P>', fn='zero',
+         method=False, selfty='TEProj', args=[], ret='TEProj', hooks=[]),
+    dict(name='gen_te_is_zero', file=TEG, impl=r'impl<P: TECurveConfig> Zero for Projective<P>', fn='is_zero',
+         args=[], ret='bool', hooks=[], **TEN),
+    dict(name='gen_te_eq', file=TEG, impl=r'impl<P: TECurveConfig> PartialEq for Projective<P>', fn='eq',
+         args=[('other', 'TEProj', 'Q')], argnames={'other': ['x2', 'y2', 't2', 'z2']}, ret='bool', hooks=[], **TEN),
+    dict(name='gen_te_neg', file=TEG, impl=r'impl<P: TECurveConfig> Neg for Projective<P>', fn='neg',
+         args=[], ret='self', hooks=[], **TEN),
+    dict(name='gen_te_from_affine', file=TEG, impl=r'impl<P: TECurveConfig> From<Affine<P>> for Projective<P>', fn='from',
+         method=False, selfty='TEProj', args=[('p', 'TEAff', 'A')], argnames={'p': ['x', 'y']}, ret='TEProj', hooks=[]),
+    dict(name='gen_te_aff_zero', file=TEA, impl=r'impl<P: TECurveConfig> Affine<P>', fn='zero',
+         method=False, selfty='TEAff', args=[], ret='TEAff', hooks=[]),
+    dict(name='gen_te_aff_is_zero', file=TEA, impl=r'impl<P: TECurveConfig> Affine<P>', fn='is_zero',
+         selfty='TEAff', selfparam='A', selfnames=['x', 'y'], args=[], ret='bool', hooks=[]),
+    dict(name='gen_te_aff_is_on_curve', file=TEA, impl=r'impl<P: TECurveConfig> Affine<P>', fn='is_on_curve',
+         selfty='TEAff', selfparam='A', selfnames=['x', 'y'], args=[], ret='bool', hooks=TE_HOOKS),
+    dict(name='gen_te_aff_neg', file=TEA, impl=r'impl<P: TECurveConfig> Neg for Affine<P>', fn='neg',
+         selfty='TEAff', selfparam='A', selfnames=['x', 'y'], args=[], ret='TEAff', hooks=[]),
+    dict(name='gen_te_into_affine', file=TEA, impl=r'impl<P: TECurveConfig> From<Projective<P>> for Affine<P>', fn='from',
+         method=False, selfty='TEAff', args=[('p', 'TEProj', 'P')], argnames={'p': ['x1', 'y1', 't1', 'z1']},
+         ret='TEAff', hooks=[], may_panic=True),
+    # ---- F: more of the extension-field templates
+    dict(name='gen_quad_conjugate_in_place', file=QE, impl=r'impl<P: QuadExtConfig> QuadExtField<P>', fn='conjugate_in_place',
+         args=[], ret='self', hooks=[], **QN),
+    dict(name='gen_quad_norm', file=QE, impl=r'impl<P: QuadExtConfig> QuadExtField<P>', fn='norm',
+         args=[], ret='K', hooks=[Q_SUB], **QN),
+    dict(name='gen_quad_mul_assign_by_basefield', file=QE, impl=r'impl<P: QuadExtConfig> QuadExtField<P>',
+         fn='mul_assign_by_basefield', args=[('element', 'K', 'e')], ret='self', hooks=[], **QN),
+    dict(name='gen_quad_double_in_place', file=QE, impl=r'impl<P: QuadExtConfig> AdditiveGroup for QuadExtField<P>',
+         fn='double_in_place', args=[], ret='self', hooks=[], **QN),
+    dict(name='gen_quad_neg_in_place', file=QE, impl=r'impl<P: QuadExtConfig> AdditiveGroup for QuadExtField<P>',
+         fn='neg_in_place', args=[], ret='self', hooks=[], **QN),
+    dict(name='gen_quad_add_assign', file=QE, impl=r'impl<P: QuadExtConfig> AddAssign<&Self> for QuadExtField<P>',
+         fn='add_assign', args=[('other', 'Quad', 'b')], argnames={'other': ['b0', 'b1']}, ret='self', hooks=[], **QN),
+    dict(name='gen_quad_sub_assign', file=QE, impl=r'impl<P: QuadExtConfig> SubAssign<&Self> for QuadExtField<P>',
+         fn='sub_assign', args=[('other', 'Quad', 'b')], argnames={'other': ['b0', 'b1']}, ret='self', hooks=[], **QN),
+    dict(name='gen_quad_frobenius_map_in_place', file=QE, impl=r'impl<P: QuadExtConfig> Field for QuadExtField<P>',
+         fn='frobenius_map_in_place', args=[('power', 'usize', 'power')], ret='self',
+         hooks=[H('frobenius_map_in_place', 'method', 'frob_base', ['usize'], recv='K'),
+                H('mul_base_field_by_frob_coeff', 'inplace', 'frob_coeff_mul', ['K', 'usize'])], **QN),
+    dict(name='gen_cubic_mul_assign_by_base_field', file=CE, impl=r'impl<P: CubicExtConfig> CubicExtField<P>',
+         fn='mul_assign_by_base_field', args=[('value', 'K', 'e')], ret='self', hooks=[], **CN),
+    dict(name='gen_cubic_double_in_place', file=CE, impl=r'impl<P: CubicExtConfig> AdditiveGroup for CubicExtField<P>',
+         fn='double_in_place', args=[], ret='self', hooks=[], **CN),
+    dict(name='gen_cubic_neg_in_place', file=CE, impl=r'impl<P: CubicExtConfig> AdditiveGroup for CubicExtField<P>',
+         fn='neg_in_place', args=[], ret='self', hooks=[], **CN),
+    dict(name='gen_cubic_add_assign', file=CE, impl=r'impl<P: CubicExtConfig> AddAssign<&Self> for CubicExtField<P>',
+         fn='add_assign', args=[('other', 'Cubic', 'o')], argnames={'other': ['o0', 'o1', 'o2']}, ret='self', hooks=[], **CN),
+    dict(name='gen_cubic_sub_assign', file=CE, impl=r'impl<P: CubicExtConfig> SubAssign<&Self> for CubicExtField<P>',
+         fn='sub_assign', args=[('other', 'Cubic', 'o')], argnames={'other': ['o0', 'o1', 'o2']}, ret='self', hooks=[], **CN),
+    dict(name='gen_cubic_frobenius_map_in_place', file=CE, impl=r'impl<P: CubicExtConfig> Field for CubicExtField<P>',
+         fn='frobenius_map_in_place', args=[('power', 'usize', 'power')], ret='self',
+         hooks=[H('frobenius_map_in_place', 'method', 'frob_base', ['usize'], recv='K'),
+                H('mul_base_field_by_frob_coeff', 'inplace2', 'frob_coeff1_mul', ['K', 'K', 'usize'],
+                  param2='frob_coeff2_mul')], **CN),
 ]
 # which struct type a method call on a value of that type resolves to, per source file family:
 # mul_by_01 / mul_by_1 on a 'Cubic' value are the fp6_3over2 functions (used by fp12)
-NO_METHOD = {'gen_fp6_2over3_mul_by_034', 'gen_fp6_2over3_mul_by_014', 'gen_fp12_mul_by_034', 'gen_fp12_mul_by_014',
+NO_METHOD = {'gen_quad_double_in_place', 'gen_quad_neg_in_place', 'gen_cubic_double_in_place', 'gen_cubic_neg_in_place',
+             'gen_quad_frobenius_map_in_place', 'gen_cubic_frobenius_map_in_place', 'gen_sw_neg', 'gen_te_neg',
+             'gen_sw_aff_neg', 'gen_te_aff_neg', 'gen_sw_eq', 'gen_te_eq',
+             'gen_fp6_2over3_mul_by_034', 'gen_fp6_2over3_mul_by_014', 'gen_fp12_mul_by_034', 'gen_fp12_mul_by_014',
              'gen_fp12_cyclotomic_square_in_place', 'gen_quad_mul_assign', 'gen_cubic_mul_assign'}
 
 HEADER = '''(* GENERATED by lib/xlate_field.py -- do not edit.
@@ -1494,28 +1703,53 @@ Arguments GPanic {A}. Arguments GRet {A} a.
 '''
 
 
-def translate(repo):
+def split_defs(text):
+    """previous generated file -> {definition name: text block}"""
+    out = {}
+    for m in re.finditer(r'(\(\* [^\n]* \*\)\nDefinition (\w+) .*?\.\n)(?=\n|\Z)', text, re.S):
+        out[m.group(2)] = m.group(1)
+    return out
+
+
+def translate_all(repo, prev_text=None):
+    """per-target best effort: (text, failures).  A target that cannot be translated keeps its
+    previous generated definition (failures = [(name, message)]); without a previous
+    definition for it the whole translation fails."""
     defs = []
     for t in TARGETS:
         t = dict(t)
         if t['name'] in NO_METHOD:
             t['method_lookup'] = False
         defs.append(t)
+    prev = split_defs(prev_text) if prev_text else {}
     out = [HEADER]
     cache = {}
     done = []
+    failures = []
     for t in defs:
         path = os.path.join(repo, t['file'])
-        if path not in cache:
-            try:
-                cache[path] = strip_comments(open(path).read())
-            except OSError as e:
-                raise TranslateError('cannot read %s: %s' % (path, e))
-        callable_defs = [d for d in done if d.get('method_lookup', True)]
-        ex = Exec(t, callable_defs)
-        out.append(ex.translate(cache[path]))
+        try:
+            if path not in cache:
+                try:
+                    cache[path] = strip_comments(open(path).read())
+                except OSError as e:
+                    raise TranslateError('%s: cannot read %s: %s' % (t['name'], path, e))
+            callable_defs = [d for d in done if d.get('method_lookup', True)]
+            ex = Exec(t, callable_defs)
+            out.append(ex.translate(cache[path]))
+        except TranslateError as e:
+            if t['name'] not in prev:
+                raise
+            failures.append((t['name'], str(e)))
+            out.append(prev[t['name']])
         done.append(t)
-    return '\n'.join(out)
+    return '\n'.join(out), failures
+
+
+def translate(repo):
+    """strict: every target must translate"""
+    text, failures = translate_all(repo, None)
+    return text
 
 
 def write_if_changed(path, text):
@@ -1531,8 +1765,11 @@ if __name__ == '__main__':
     repo = sys.argv[1] if len(sys.argv) > 1 else '/repo'
     dst = sys.argv[2] if len(sys.argv) > 2 else '/verif/coq/Gen/GenField.v'
     try:
-        t = translate(repo)
+        prev = open(dst).read() if os.path.exists(dst) else None
+        t, failures = translate_all(repo, prev)
     except TranslateError as e:
         print('TRANSLATE-ERROR: %s' % e)
         sys.exit(3)
+    for name, msg in failures:
+        print('TRANSLATE-ERROR (kept previous %s): %s' % (name, msg))
     print('changed' if write_if_changed(dst, t) else 'unchanged')
